@@ -233,4 +233,19 @@ Spec == Init /\ [][Next]_vars
 \* ----------------------------------------------------------- schedule generation
 \* In generation mode every behaviour's action history is printed as JSON once it is complete.
 EmitHist == (Len(hist) = MaxHist) => PrintT(<<"SCHED", ToJson(hist)>>)
+
+\* Transition/layout cover: in a breadth-first run (hist outside the VIEW, so every view state keeps the
+\* history of the first = shortest path reaching it) every state prints the layout signature of each key:
+\* the sources holding it, in lookup order, with the version and whether that copy is the reference value.
+\* The check keeps one shortest history per distinct signature ("one implementation test per layout").
+SrcSig(tag, d, k) == [w \in {v \in Vers : Has(d, <<k, v>>)} |-> <<tag, w, d[<<k, w>>] = ref[<<k, w>>]>>]
+KeySig(k) ==
+    LET mems == <<SrcSig("mem", mem, k)>> \o [i \in 1..Len(imm) |-> SrcSig("imm", imm[Len(imm) + 1 - i].data, k)]
+        l0   == LET ts == Reverse(FidAsc(L0)) IN [i \in 1..Len(ts) |-> SrcSig("l0", ts[i].data, k)]
+        ing  == {SrcSig("ing1", t.data, k) : t \in ing1}
+        m1   == {SrcSig("main1", t.data, k) : t \in main1}
+        m2   == {SrcSig("main2", t.data, k) : t \in main2}
+    IN <<SelectSeq(mems \o l0, LAMBDA f : DOMAIN f # {}), {f \in ing : DOMAIN f # {}},
+         {f \in m1 : DOMAIN f # {}}, {f \in m2 : DOMAIN f # {}}>>
+EmitCover == PrintT(<<"COVER", [k \in Keys |-> KeySig(k)], ToJson(hist)>>)
 =============================================================================
